@@ -125,7 +125,11 @@ def run(prog, rep, tier, repo):
         # both routes use the same operands
         key = 'routing:%s:operands' % name
         ok = all(c.args[0] == a for c in lus)
-        (rep.ok if ok and lus else rep.viol)('routing', key, 'LU route factorises the same matrix `a`' if ok and lus else 'LU route does not factorise `a`', site_of(f.body))
+        if not lus:
+            # the factorisation may live in a helper (`Factors::of(a)`): which matrix it receives there is not read by this rule
+            rep.undecided('routing', key, 'no LU factorisation call in the body of %s itself (route kept in a helper?)' % name, site_of(f.body), proof=False)
+        else:
+            (rep.ok if ok else rep.viol)('routing', key, 'LU route factorises the same matrix `a`' if ok else 'LU route does not factorise `a`', site_of(f.body))
     # every value the slice-level solvers return comes out of one of the two factorisation routes: a return site that computes the solution by
     # other means (a closed form for small systems, say) is a third route with its own rounding behaviour -- routing independence and the
     # residual bound are then not inherited from Cholesky / pivoted LU
